@@ -79,13 +79,17 @@ def run(rep):
               "check_close must report claimed=true exactly for Claimed ends", detail={"tuples": sorted(have)})
     # end selection: Sender -> self.sender, Receiver -> self.receiver
     sel = {}
-    for i in sorted(cc.live_blocks()):
-        for st in cc.blocks[i]["s"]:
-            if st["r"]["k"] == "ref" and len(st["r"]["p"]) >= 3 and st["r"]["p"][0] == 1 and st["r"]["p"][-1] in (".sender", ".receiver"):
-                for g in cc.guard_strings(i):
-                    m = re.match(r"^(Sender|Receiver)=discr\(end\)$", g)
-                    if m:
-                        sel[m.group(1)] = st["r"]["p"][-1]
+    # the selection may live in check_close itself or in a private selector helper it calls (`self.end_state(end)`)
+    where = [cc] + [prog.body(c.resolved or c.callee) for c in cc.calls if mir.selector_of(prog, c)]
+    for wb in where:
+        endp = [wb.local_name(l) for l in range(1, wb.argc + 1) if wb.locals[l]["ty"].endswith("ChannelEnd")]
+        for i in sorted(wb.live_blocks()):
+            for st in wb.blocks[i]["s"]:
+                if st["r"]["k"] == "ref" and len(st["r"]["p"]) >= 3 and st["r"]["p"][0] == 1 and st["r"]["p"][-1] in (".sender", ".receiver"):
+                    for g in wb.guard_strings(i):
+                        m = re.match(r"^(Sender|Receiver)=discr\((\w+)\)$", g)
+                        if m and m.group(2) in endp:
+                            sel[m.group(1)] = st["r"]["p"][-1]
     rep.check(sel == {"Sender": ".sender", "Receiver": ".receiver"}, "C05-R1", cc.def_, "end-selection", "check_close must inspect the end the request names; mapping %s" % sel, detail={"mapping": sel})
 
     for (fn, own, other) in [("claim_sender", "sender", "receiver"), ("claim_receiver", "receiver", "sender")]:
